@@ -139,7 +139,8 @@ PAIRS = [('ok', 'ok'), ('ok', 'crash'), ('badjson', 'badjson'), ('form', 'ok'), 
          ('cookie_then_abort', 'ok'), ('wrongverb', 'ok_json_accept'), ('crash', 'notfound'), ('oversized', 'oversized'), ('form', 'form'),
          ('rex', 'rex'), ('expires', 'expires'), ('typed', 'typed'), ('signed', 'signed'), ('status_str', 'status_int'), ('urlinfo', 'auth'), ('longpath', 'ok'),
          ('raised', 'raised'), ('gen', 'gen'), ('head_ok', 'ok'), ('badjson', 'badmultipart'), ('badmultipart', 'badjson'), ('oversized', 'bigform'), ('bigform', 'oversized'),
-         ('badchunk', 'badchunk'), ('notfound_json', 'crash')]
+         ('badchunk', 'badchunk'), ('notfound_json', 'crash'), ('chunked_ok', 'chunked_ok'), ('header_case', 'ok'), ('header_case', 'header_case'), ('notmodified', 'ok'),
+         ('nocontent', 'ok'), ('inject_arg', 'ok'), ('ok', 'notmodified'), ('chunked_ok', 'badchunk')]
 
 def _reqs():
     anyk = st.lists(st.tuples(st.sampled_from(S.KINDS), st.integers(0, 30)).map(list), min_size=2, max_size=3)
